@@ -27,7 +27,10 @@ LEVEL_TEXT = ('Lean 4 theorems about the model of propagate_fft, for all fields,
               'composition (which shift is applied inside/outside and the norm= keyword are read from the source: Gen.fft2InnerIdx/fft2OuterIdx/fft2Norm, '
               'fft2_composition proves they are ifftshift / fftshift / ortho). propagateFft_scale_covariant: scaling every length by k>0 leaves the whole outcome '
               '(accepted field data and extents, or the same refusal) unchanged and multiplies the reported wavelength by k, and scratch_shape is unit independent (scratch_shape_scale_invariant_real) (for 0 < k; min(ka, kb) = k min(a, b) is proved, fft_scale_invariant_real / propagateFft_scale_covariant_real carry no other hypothesis). The oracle also checks that a '
-              'caller\'s scratch buffer is untouched outside the fft_shape corner after the call.')
+              'caller\'s scratch buffer is untouched outside the fft_shape corner after the call. '
+              'The call on a wavefront of any plane type (propagateFftCall = regenerated entry-guard table Gen.codePropagateFft, then propagateFft): a tilted wavefront is refused '
+              'whatever its plane type, also an untyped one (call_refuses_tilted_any_type), no outcome of the call carries a field of a tilted wavefront (call_result_implies_untilted), '
+              'an untilted untyped wavefront is refused with TypeError and on a pupil / image wavefront the call IS propagateFft with the plane type flipped (call_untilted).')
 LEVEL_NOTE = ('Partial: np.fft.fft2/fftshift/ifftshift and np.round/np.min/np.max enter through their documented contracts (not verified; which of them _fft2 composes and in which order IS regenerated; the real-number round-half-even and min are the instances the theorems are proved at); oversample is an integer in the model and theorems — float '
               'oversample is exercised by the oracle only (known finding KF-C09-float-oversample-explicit-shape); anisotropic dx·du whose per-axis wavelengths DIFFER is excluded by '
               'hypothesis (KF-C09-fft-anisotropic-wavelength; consistent per-axis grids are covered). Trusted: Lean kernel, py2lean subset semantics, generator coverage.')
@@ -40,12 +43,13 @@ RULE = ('cases: pupils 1..6 x 1..6 (even/odd/non-square, off-centre, segmented) 
         'tilted wavefronts; one case in five has anisotropic dx*du (non-square grids, wider and taller, mostly with dirty/re-used scratch: '
         'scratch = no scratch, exact scratch_shape and refusals are checked there too; only FFT vs DFT is the known-finding class). distinct = (pupil, grid, os, shape, scratch, class); '
         'non-trivial = odd grid or scratch or explicit shape or refusal'
+        ' Untyped stream (8 quick / 60 search / 120 thorough): the same cases on a wavefront of plane type none (plain Plane), every second tilted.'
         ' Extremes stream: every length scaled by 1e-9..1e3, 1/alpha within 1e-9..3e-4 of an integer, per-axis output pitches differing by 1e-5..3e-3 relative, grids up to 48 in search/thorough (oracle only above 16).')
 TRUSTED = ['np.fft.fft2(norm="ortho") = unitary DFT with origin at index 0; np.fft.fftshift/ifftshift = rotations by +-floor(n/2); '
            'np.round = round-half-even; lentil.field.insert as modelled by insertArr (C06)']
 UNPROVEN = ['float (non-integer) oversample: outside the model; explicit shapes then end in TypeError (known finding)',
             'anisotropic dx*du with different per-axis wavelengths (known finding): a single reported wavelength cannot describe both grids']
-ASSUMPTIONS = ['the wavefront has a plane type (pupil/image): an untyped wavefront ends in TypeError from _propagate_ptype before the shape guard (C08 models it; not an outcome of the C09 model, not generated)',
+ASSUMPTIONS = ['untyped wavefronts (plane type none: only a plain lentil.Plane met; tilted through Wavefront(tilt=) / a Tilt plane or not, with any shape / scratch) are generated: NotImplementedError when tilted, else TypeError (oracle); model = propagateFftCall over the regenerated guard table Gen.codePropagateFft',
                'scratch buffers are complex128 arrays (contiguous or strided views): a complex64 / real buffer would store the padded field at lower precision or drop its '
                'imaginary part, so "scratch transparent" is only claimed for buffers of the working dtype; such buffers are not generated',
                'pupil (wavefront.shape) no larger than the FFT grid; for the FFT = DFT clause dx*du is isotropic or the per-axis grids agree on the wavelength (S0*dx0*du0 = S1*dx1*du1, e.g. non-square grids 20x40; otherwise the open known finding); integer oversample >= 1 in model and '
@@ -56,7 +60,7 @@ WL, Z = P.WL, P.Z
 def _even_round(x):
     return int(np.round(x))
 
-def _case(rng, tier, k, out, scale=1.0, near=None, smax=None, kmax=6, float_os=False):
+def _case(rng, tier, k, out, scale=1.0, near=None, smax=None, kmax=6, float_os=False, untyped=False):
     """one case appended to `out`. `scale` multiplies every length (nothing observable but the reported wavelength, which
     scales along, may change); near='int': 1/alpha within 1e-9 .. 3e-4 of an integer; near='axis': per-axis output pitches that
     differ by a relative 1e-5 .. 3e-3 only"""
@@ -128,6 +132,12 @@ def _case(rng, tier, k, out, scale=1.0, near=None, smax=None, kmax=6, float_os=F
             f = float(rng.choice([1.5, 2.5, 2.0, 1.0]))
             c['du'] = [d * f / os_ for d in c['du']]; c['os'] = f; c['float_os'] = True; c['nomodel'] = True
             if c['shape'] is not None and rng.integers(0, 2): c['shape'] = None
+        if untyped:
+            # a wavefront that has met no pupil/image plane (a plain lentil.Plane): plane type none; every second one carries tilt
+            # (Wavefront(tilt=...) or a Tilt plane), shape / scratch of any kind, also the refused ones: the entry guards come first
+            c['untyped'] = True; c['tilt_on'] = 'all'; c['pupil']['seg'] = None
+            if k % 2: c['tilt'] = [float(rng.uniform(-1e-6, 1e-6)), float(rng.uniform(-1e-6, 1e-6))]; c['wtilt'] = bool(rng.integers(0, 2))
+            else: c['tilt'] = None; c['wtilt'] = False
         if S > 16: c['nomodel'] = True
         out.append(c)
 
@@ -148,6 +158,8 @@ def generate(rng, tier):
         else:
             if tier == 'quick': _case(rng, tier, k, out, near='axis')
             else: _case(rng, tier, k, out, near=['int', 'axis', None][int(rng.integers(0, 3))], smax=48, kmax=8)
+    # untyped stream: the call on a wavefront without plane type (entry guards of propagate_fft, Gen.codePropagateFft / propagateFftCall)
+    for k in range({'quick': 8, 'thorough': 120, 'search': 60}[tier]): _case(rng, tier, k, out, untyped=True)
     return out
 
 
@@ -155,6 +167,13 @@ def generate(rng, tier):
 def _wave(c):
     import lentil
     WL, Z = P._wz(c)
+    if c.get('untyped'):
+        p = c['pupil']; m, n = p['shape']
+        dx = c['dx'][0] if c['scalar_dx'] else tuple(c['dx'])
+        plane = lentil.Plane(amplitude=np.array(p['amp']).reshape(m, n), opd=np.array(p['opd']).reshape(m, n), pixelscale=dx)
+        if c['tilt'] is not None and c.get('wtilt'): return lentil.Wavefront(wavelength=WL, tilt=c['tilt']) * plane
+        w = lentil.Wavefront(wavelength=WL) * plane
+        return w if c['tilt'] is None else w * lentil.Tilt(x=c['tilt'][0], y=c['tilt'][1])
     if c['tilt'] is not None and c.get('tilt_on', 'all') != 'all':
         # a segmented wavefront in which ONE field only (not necessarily the first) carries a tilt element
         p = c['pupil']; m, n = p['shape']
@@ -227,7 +246,7 @@ def impl(c):
     if c.get('shape_np') and shape is not None: shape = np.int64(shape) if isinstance(shape, int) else np.array(shape, dtype=np.int32)
     scr = _scratch(c, adv_list if adv_list is not None else adv)
     inp = {'fields': [dict(P._cx(f.data), off=[int(f.offset[0]), int(f.offset[1])]) for f in w.data],
-           'has_tilt': bool(any(f.tilt for f in w.data)), 'ntilt': [len(f.tilt) for f in w.data],
+           'has_tilt': bool(any(f.tilt for f in w.data)), 'ptype': str(w.ptype), 'ntilt': [len(f.tilt) for f in w.data],
            'advertised_list': adv_list, 'advertised_each': None if adv_list is None else adv_each, 'canvas': P._cx(w.field), 'shape': [int(x) for x in w.shape],
            'pixelscale': [float(x) for x in w.pixelscale], 'wavelength': float(w.wavelength), 'focal_length': float(w.focal_length),
            'scratch': None if scr is None else P._cx(scr), 'advertised': adv}
@@ -270,8 +289,8 @@ def requests(c, io):
     scr = inp['scratch']
     mw = max(c['wl_list']) if c.get('wl_list') else inp['wavelength']
     return [{'op': 'c09.scratch_shape', 'dx': vlib.fl(inp['pixelscale']), 'du': vlib.fl(c['du']), 'max_wl': vlib.fbits(mw),
-             'z': vlib.fbits(inp['focal_length']), 'os': c['os']},
-            {'op': 'c09.propagate_fft',
+             'z': vlib.fbits(P._wz(c)[1] if c.get('untyped') else inp['focal_length']), 'os': c['os']},
+            {'op': 'c09.propagate_fft', 'wtype': inp['ptype'],
              'fields': [{'shape': f['shape'], 'off': f['off'], 're': vlib.fl(f['re']), 'im': vlib.fl(f['im'])} for f in inp['fields']],
              'ntilt': inp['ntilt'], 'wshape': inp['shape'], 'dx': vlib.fl(inp['pixelscale']), 'du': vlib.fl(c['du']),
              'wl': vlib.fbits(inp['wavelength']), 'z': vlib.fbits(inp['focal_length']), 'os': c['os'], 'shape': shape,
@@ -299,6 +318,7 @@ def compare(c, io, mo):
     ps = vlib.unfl(m['pixelscale'])
     if any(abs(x - y) > 1e-12 * abs(y) for x, y in zip(io['pixelscale'], ps)): return f"output pixelscale {io['pixelscale']} vs model {ps}"
     if io['focal_length'] != vlib.bitsf(m['focal_length']): return f"output focal length {io['focal_length']!r} vs model {vlib.bitsf(m['focal_length'])!r}"
+    if io['ptype'] != m.get('ptype'): return f"output plane type: impl {io['ptype']} model {m.get('ptype')} (input {io['in']['ptype']})"
     return None
 
 # ------------------------------------------------------------------------------------------ oracle (real code only)
@@ -323,12 +343,13 @@ def oracle(c, io):
     shape = c['shape']
     sh = None if shape is None else ([shape, shape] if isinstance(shape, int) else list(shape))
     want_exc = None
-    if any(n > 0 for n in inp['ntilt']): want_exc = 'NotImplementedError'      # ANY field carrying tilt
+    if any(n > 0 for n in inp['ntilt']): want_exc = 'NotImplementedError'      # ANY field carrying tilt, whatever the plane type
+    elif inp['ptype'] not in ('pupil', 'image'): want_exc = 'TypeError'        # nothing to propagate from: refused, whatever shape / scratch
     elif sh is not None and (sh[0] * os_ > S[0] or sh[1] * os_ > S[1]): want_exc = 'ValueError'
     elif inp['scratch'] is not None and (inp['scratch']['shape'][0] < S[0] or inp['scratch']['shape'][1] < S[1]): want_exc = 'ValueError'
     if want_exc:
         if io.get('exc') == want_exc: return None
-        what = f"a wavefront whose fields carry {inp['ntilt']} tilt elements" if any(inp['ntilt']) else (f'shape {sh} larger than the grid {S}/os={os_}' if want_exc == 'ValueError' and sh is not None and (sh[0] * os_ > S[0] or sh[1] * os_ > S[1]) else f"scratch {inp['scratch']['shape']} smaller than {S}")
+        what = f"a wavefront whose fields carry {inp['ntilt']} tilt elements" if any(inp['ntilt']) else f"a wavefront of plane type {inp['ptype']}" if want_exc == 'TypeError' else (f'shape {sh} larger than the grid {S}/os={os_}' if want_exc == 'ValueError' and sh is not None and (sh[0] * os_ > S[0] or sh[1] * os_ > S[1]) else f"scratch {inp['scratch']['shape']} smaller than {S}")
         return f"{what} must be refused with {want_exc}, got {io.get('exc', 'a result')}"
     if 'exc' in io and c.get('float_os') and io['exc'] == 'TypeError':
         return (f"float oversample: oversample={c['os']!r} with shape={sh} passes the shape guard (shape*oversample = "
@@ -389,10 +410,10 @@ def replay_finding(kf):
 def signature(c):
     s = c['scratch']
     return (f"sc={c.get('scale')} near={c.get('near')} {c['class']} wl={P._wz(c)[0]:.3g} z={P._wz(c)[1]:g} wll={c.get('wl_list') is not None} ton={c.get('tilt_on')} {c['pupil']['shape']} seg={c['pupil']['seg'] is not None} du={c['du'][0]:.6g},{c['du'][1]:.6g} os={c['os']} shape={c['shape']} "
-            f"scratch={None if s is None else (s['size'], s['content'], s['pad'], bool(s.get('view')))} np={bool(c.get('shape_np'))} tilt={c['tilt'] is not None}")
+            f"scratch={None if s is None else (s['size'], s['content'], s['pad'], bool(s.get('view')))} np={bool(c.get('shape_np'))} tilt={c['tilt'] is not None}" + (' untyped' if c.get('untyped') else ''))
 
 def nontrivial(c):
-    return bool(c['scratch'] is not None or c['shape'] is not None or c['tilt'] is not None or c['class'].startswith('aniso')
+    return bool(c['scratch'] is not None or c['shape'] is not None or c['tilt'] is not None or c['class'].startswith('aniso') or c.get('untyped')
                 or _even_round(P._wz(c)[0] * P._wz(c)[1] * c['os'] / (c['dx'][0] * c['du'][0])) % 2 == 1)
 
 def tags(c):
@@ -410,6 +431,7 @@ def tags(c):
     if c.get('scale'): t.append(f"scale={c['scale']:g}")
     if c.get('near'): t.append('near:' + c['near'])
     if c.get('float_os'): t.append(f"oversample:float {c['os']}")
+    if c.get('untyped'): t.append('untyped:' + ('tilted' if c['tilt'] is not None else 'untilted'))
     t.append(f"wl={P._wz(c)[0]:.3g}"); t.append(f"z={P._wz(c)[1]:g}")
     return t
 
